@@ -65,8 +65,10 @@ func (core *JApiCore) collectPathVariables(d *directive.Directive) *jerr.JApiErr
 
 	// Copies of a macro's directives made by PASTE keep the coordinates of the macro's text: the context is
 	// recognised by its identity.
-	if len(core.rawPathVariables) != 0 {
-		if core.rawPathVariables[len(core.rawPathVariables)-1].parent == d.Parent {
+	// Every context that already has a Path directive is remembered, not only the last one: the Path of a
+	// nested method may stand between two Path directives of one URL.
+	for i := range core.rawPathVariables {
+		if core.rawPathVariables[i].parent == d.Parent {
 			return d.KeywordError(jerr.NotUniqueDirective)
 		}
 	}
